@@ -454,7 +454,16 @@ class EdgeQLSourceGenerator(codegen.SourceGenerator):
 
     def visit_DetachedExpr(self, node: qlast.DetachedExpr) -> None:
         self._write_keywords('DETACHED ')
+        # DETACHED binds tighter than path steps: `DETACHED Foo.bar`
+        # is `(DETACHED Foo).bar`.
+        parenthesize = (
+            isinstance(node.expr, qlast.Path) and len(node.expr.steps) > 1
+        )
+        if parenthesize:
+            self.write('(')
         self.visit(node.expr)
+        if parenthesize:
+            self.write(')')
 
     def visit_GlobalExpr(self, node: qlast.GlobalExpr) -> None:
         self._write_keywords('GLOBAL ')
